@@ -181,6 +181,9 @@ func symAndV(a, b value) value {
 // symBinop handles binary operators when at least one operand is symbolic
 // (or a timeVal/absBytes comparison). ok=false => fall through to concrete code.
 func symBinop(fr *frame, op token.Token, t types.Type, x, y value) (value, bool) {
+	if r, ok := symFloatBinop(fr, op, x, y); ok {
+		return r, true
+	}
 	_, xs := x.(*Term)
 	_, ys := y.(*Term)
 	if !xs && !ys {
@@ -275,6 +278,10 @@ func symEquals(fr *frame, t types.Type, x, y value) value {
 			return simplifyBoolV(fr.i.m.strEq(x, toTerm(y)))
 		}
 		return simplifyBoolV(mkEq(x, toTerm(y)))
+	case symFloat:
+		if r, ok := symFloatBinop(fr, token.EQL, x, y); ok {
+			return r
+		}
 	case timeVal:
 		yt := y.(timeVal)
 		return simplifyBoolV(mkEq(x.ns, yt.ns))
@@ -436,7 +443,7 @@ func symConv(fr *frame, utDst, utSrc types.Type, x value) (value, bool) {
 					return xv, true
 				}
 				if d.Info()&types.IsFloat != 0 {
-					return symFloat{xv}, true
+					return symFloat{t: xv}, true
 				}
 				if d.Kind() == types.String {
 					return mkFromCode(xv), true
@@ -449,8 +456,12 @@ func symConv(fr *frame, utDst, utSrc types.Type, x value) (value, bool) {
 	case symFloat:
 		if d, ok := utDst.(*types.Basic); ok {
 			if d.Info()&types.IsInteger != 0 {
-				fr.rangeCheck(xv.t, d)
-				return xv.t, true
+				it := xv.t
+				if xv.half {
+					it = mkQuo(xv.t, mkInt(2)) // Go truncates toward zero
+				}
+				fr.rangeCheck(it, d)
+				return it, true
 			}
 			if d.Info()&types.IsFloat != 0 {
 				return xv, true
@@ -489,7 +500,69 @@ func symConv(fr *frame, utDst, utSrc types.Type, x value) (value, bool) {
 }
 
 // symFloat is an integral float64 value (a JSON number) carried as an Int term.
-type symFloat struct{ t *Term }
+// With half set the value is t/2 (so .5 fractions are representable: enough to exercise code that
+// distinguishes integral from fractional JSON numbers).
+type symFloat struct {
+	t    *Term
+	half bool
+}
+
+// halves returns the value of f in units of 1/2.
+func (f symFloat) halves() *Term {
+	if f.half {
+		return f.t
+	}
+	return mkMul(f.t, mkInt(2))
+}
+
+// floatHalves converts a float operand (symbolic or a concrete multiple of 0.5) to units of 1/2.
+func floatHalves(v value) (*Term, bool) {
+	switch x := v.(type) {
+	case symFloat:
+		return x.halves(), true
+	case float64:
+		d := x * 2
+		if d == float64(int64(d)) && d > -1e15 && d < 1e15 {
+			return mkInt(int64(d)), true
+		}
+	case float32:
+		return floatHalves(float64(x))
+	}
+	return nil, false
+}
+
+// symFloatBinop: comparisons and +/- on floats of which at least one is symbolic.
+func symFloatBinop(fr *frame, op token.Token, x, y value) (value, bool) {
+	_, xs := x.(symFloat)
+	_, ys := y.(symFloat)
+	if !xs && !ys {
+		return nil, false
+	}
+	a, ok1 := floatHalves(x)
+	b, ok2 := floatHalves(y)
+	if !ok1 || !ok2 {
+		panic(unmodelled{"float arithmetic with a non half-integral operand"})
+	}
+	switch op {
+	case token.EQL:
+		return boolVal(mkEq(a, b)), true
+	case token.NEQ:
+		return boolVal(mkNot(mkEq(a, b))), true
+	case token.LSS:
+		return boolVal(mkLt(a, b)), true
+	case token.LEQ:
+		return boolVal(mkLe(a, b)), true
+	case token.GTR:
+		return boolVal(mkLt(b, a)), true
+	case token.GEQ:
+		return boolVal(mkLe(b, a)), true
+	case token.ADD:
+		return symFloat{t: mkAdd(a, b), half: true}, true
+	case token.SUB:
+		return symFloat{t: mkSub(a, b), half: true}, true
+	}
+	panic(unmodelled{"symbolic float operator " + op.String()})
+}
 
 // symAppend handles append on abstract bytes.
 func symAppend(fr *frame, args []value) (value, bool) {
